@@ -420,8 +420,19 @@ class Parser:
         if self.isp("~~~"):
             self.adv(); return ["un", "bnot", self.unary()]
         e = self.postfix()
-        if self.isp("|>"):
-            raise Unsupported("pipe operator")
+        while self.isp("|>"):
+            # `l |> f(a, b)` = `f(l, a, b)` (a tuple `l` is unpacked into the first parameters): binds tighter than every
+            # unary / binary operator, left associative; the right operand is a postfix expression that must be a call
+            self.adv()
+            r = self.postfix()
+            if r[0] == "call":
+                e = ["pipe", e, r[1], r[2]]
+            elif r[0] == "builtin":
+                if e[0] == "tuple":
+                    raise Unsupported("pipe of a tuple into a builtin")
+                e = ["builtin", r[1], [e] + r[2], "pipe"]
+            else:
+                raise Unsupported("pipe into something that is not a call")
         return e
 
     def args(self):
@@ -794,6 +805,8 @@ def expr_sx(e, prog):
     if t == "listcomp":
         qs = [["gen", q[1], R(q[2])] if q[0] == "gen" else ["filter", R(q[1])] for q in e[3]]
         return ["listcomp", coarse(e[1], prog), R(e[2])] + qs
+    if t == "pipe":
+        return ["pipe", R(e[1]), R(e[2])] + [R(a) for a in e[3]]
     if t == "range":
         return ["range"] + [R(a) for a in e[1]]
     if t == "slice":
@@ -890,6 +903,15 @@ def nested_lit(shape, elems, ind):
     n = len(elems) // shape[0]
     return "[ " + ", ".join(nested_lit(shape[1:], elems[i * n:(i + 1) * n], ind) for i in range(shape[0])) + " ]"
 
+def pipe_left(e, ind):
+    """the left operand of `|>`: anything that is not an atom / postfix expression is parenthesised by its own printer,
+    except the unparenthesised forms"""
+    s = expr_src(e, ind)
+    if e[0] in ("var", "int", "long", "float", "double", "char", "str", "bool", "index", "field", "slice", "call", "builtin",
+                "record", "enumval", "enumrec", "range", "seq") or s.startswith("("):
+        return s
+    return "(" + s + ")"
+
 def expr_src(e, ind=0):
     t = e[0]
     S = lambda x: expr_src(x, ind)
@@ -954,7 +976,11 @@ def expr_src(e, ind=0):
     if t == "call":
         return "%s(%s)" % (S(e[1]) if e[1][0] == "var" else "(" + S(e[1]) + ")", ", ".join(S(a) for a in e[2]))
     if t == "builtin":
+        if len(e) > 3 and e[3] == "pipe":
+            return "(%s |> %s(%s))" % (pipe_left(e[2][0], ind), e[1], ", ".join(S(a) for a in e[2][1:]))
         return "%s(%s)" % (e[1], ", ".join(S(a) for a in e[2]))
+    if t == "pipe":
+        return "(%s |> %s(%s))" % (pipe_left(e[1], ind), S(e[2]) if e[2][0] == "var" else "(" + S(e[2]) + ")", ", ".join(S(a) for a in e[3]))
     if t == "lam":
         return "(let " + func_src(e[1], ind) + ")"
     if t == "arrlit":
